@@ -530,3 +530,46 @@ Definition apply_edits_items (es : list edit) (l : list item) : list item :=
                      | ICookies => true end) l ++
     map IH (flat_map (edit_inserts (headers_of l)) es)
   end.
+
+(* ------------------------------------------------------------------ *)
+(** * Per-frontend REQUEST policy: [mux/router.rs] [apply_request_rewrites_and_headers]
+      (rewrite host / path, request header inject / delete), run by the routing
+      layer after [on_request_headers] and before the request is forwarded *)
+
+Record rewrites := mkrw {
+  rw_host : option (list N);
+  rw_path : option (list N);
+  rw_hdrs : list header;          (* empty value = delete every field of that name *)
+}.
+
+Definition rw_noop (r : rewrites) : bool :=
+  match rw_host r, rw_path r, rw_hdrs r with None, None, [] => true | _, _, _ => false end.
+
+Definition n_lhost := B "host".
+Definition n_lxfh := B "x-forwarded-host".
+
+(** the authority the Host line / [:authority] is written from *)
+Definition rw_authority (r : rewrites) (auth : list N) : list N :=
+  fold_left (fun a e => if named n_lhost e && negb (is_empty (snd e)) then snd e else a)
+            (rw_hdrs r) (match rw_host r with Some h => h | None => auth end).
+
+Definition rw_target (r : rewrites) (target : list N) : list N :=
+  match rw_path r with Some p => p | None => target end.
+
+Definition rw_drops (r : rewrites) (h : header) : bool :=
+  existsb (fun e => is_empty (snd e) && named (fst e) h) (rw_hdrs r) ||
+  ((match rw_host r with Some _ => true | None => false end || existsb (named n_lhost) (rw_hdrs r)) && named n_lhost h) ||
+  ((match rw_host r with Some _ => true | None => false end || existsb (named n_lxfh) (rw_hdrs r)) && named n_lxfh h).
+
+Definition rw_inserts (r : rewrites) (orig_auth : list N) : list header :=
+  (match rw_host r with Some _ => [(B "X-Forwarded-Host", orig_auth)] | None => [] end) ++
+  filter (fun e => negb (is_empty (snd e)) && negb (named n_lhost e)) (rw_hdrs r).
+
+Definition apply_rw (r : rewrites) (orig_auth : list N) (hs : list header) : list header :=
+  if rw_noop r then hs
+  else filter (fun h => negb (rw_drops r h)) hs ++ rw_inserts r orig_auth.
+
+Definition apply_rw_items (r : rewrites) (orig_auth : list N) (l : list item) : list item :=
+  if rw_noop r then l
+  else filter (fun i => match i with IH h => negb (rw_drops r h) | ICookies => true end) l ++
+       map IH (rw_inserts r orig_auth).
